@@ -30,7 +30,7 @@ CHECKS = {
     "C05": (
         "Hypothesis-generated direct allocate calls vs an independent cost function and bisection oracle (thorough tier: plus a coverage-guided atheris campaign on the same oracle)",
         "Generated-input search (40k quick / 1.5M thorough direct calls over price x multiplier x position x amount x spread x commission spec x mode) against an "
-        "independent cost model: budget respected, maximal whole quantity, fractional equality, close-out, zero amount, refusal at NaN/zero price. No counterexample = "
+        "independent cost model: budget respected, maximal whole quantity, fractional equality, close-out, zero amount, refusal at NaN/zero price; the same cases with the security under a sub-strategy whose commission schedule differs from the root's. No counterexample = "
         "evidence over the sampled domain, not a proof.",
         "Trusts the harness cost function (q*p*m + |q|*s/2*m + fee, zero for no trade) and the stated commission domain (one-unit commission + half-spread < 0.9 unit price).",
         "5/C05",
@@ -38,7 +38,7 @@ CHECKS = {
     "C07": (
         "model-based operation histories with per-trade spies + ledger identity recomputed from recorded series of generated backtests",
         "Every executed trade is observed through a spy (parent cash delta, commission calls), per-date fees/flows/outlays/bid-offer rows are compared with the reference model after every "
-        "operation, and the per-node per-date cash ledger identity is recomputed from the recorded series of generated histories and grammar backtests.",
+        "operation, and the per-node per-date cash ledger identity is recomputed from the recorded series of generated histories, grammar backtests and leveraged / short backtests that go bankrupt (the liquidation is booked on its own date).",
         "CapitalFlow only on the root in generated backtests; tolerance 1e-9 relative + 1e-7.",
         "5/C07",
     ),
@@ -53,7 +53,7 @@ CHECKS = {
     "C10": (
         "grammar-generated whole backtests (Hypothesis) with finiteness oracle and exception bucketing; generated ill-formed classes must raise",
         "Generated-input search: every grammar-generated well-formed backtest must run, every report accessor must complete, every recorded number must be finite, on the "
-        "installed pandas/numpy (interpreted build in quick, interpreted + compiled in thorough); each ill-formed class is generated in many variants and must raise.",
+        "installed pandas/numpy (interpreted build in quick, interpreted + compiled in thorough); report accessors asked for in a generated order straight after grammar, fixed-income and maturing-securities runs complete with finite weights; each ill-formed class is generated in many variants and must raise.",
         "Well-formedness is enforced by the generator (prices finite and positive wherever selected/held); third-party optimiser non-convergence is discarded and counted.",
         "5/C10",
     ),
@@ -64,7 +64,7 @@ CHECKS.update(
         "C12": (
             "exhaustive enumeration of the period comparators over all day pairs in a 42-year window (thorough) + Hypothesis-generated indices/flags/call sequences vs datetime-only reference oracles",
             "Comparator table enumerated completely within the stated bound in the thorough tier (quick: year-end straddles + strided sample); RunPeriod.__call__ and the counting/date "
-            "schedulers are searched with generated indices, flag combinations and call sequences against reference implementations.",
+            "schedulers are searched with generated indices, flag combinations and call sequences against reference implementations; schedulers joined by Or / Not / consecutive stack positions inside real backtests pass the gate exactly on the union / intersection of their own dates.",
             "First/last date are governed by their flags only (pinned by the repository's own test); week = ISO week.",
             "5/C12",
         ),
@@ -103,7 +103,7 @@ CHECKS.update(
             "metamorphic pairs of whole runs: a generated backtest vs the same backtest with every value dated after a generated cut perturbed; bit-identical prefix oracle",
             "Generated backtests over the whole stock-algo grammar (look-back/lag algos, nested trees, bid/offer, signals, dated weights, stat frames) are run twice, the second time with all "
             "supplied values after a generated cut date perturbed (prices, listings, gaps, spreads, signals, weights, statistics, coupons, holding costs, notional schedules, unit-risk tables; "
-            "families for fixed-income books, HedgeRisks trees, TargetVol and PTE_Rebalance); all node histories and transactions up to the cut must be bit-identical.",
+            "families for fixed-income books, HedgeRisks trees, TargetVol and PTE_Rebalance; transaction / RFQ blotters with their own stamps in any row order under ReplayTransactions and SimulateRFQTransactions); all node histories and transactions up to the cut must be bit-identical.",
             "Only stock algos are quantified; index and columns are not perturbed; both runs use the same RNG seeds.",
             "5/C04",
         ),
@@ -152,7 +152,7 @@ CHECKS.update(
         "C19": (
             "Hypothesis-generated construction programs with a structural oracle; probe algos checking universe columns inside generated backtests; lazy-vs-eager differential runs",
             "Generated construction programs (lists, dicts with renaming, strings, pre-built and lazily-added securities, nested strategies, late attachment, duplicates) are checked against the "
-            "described structure; generated backtests check every strategy's universe columns and sub-strategy columns on every run and that top-level settings reach lazily created children; "
+            "described structure, and a second tree built from the very same child objects must share no node with the first; generated backtests check every strategy's universe columns and sub-strategy columns on every run and that top-level settings reach lazily created children; "
             "string children vs pre-constructed securities must give equal histories.",
             "Lazy/eager comparison per node name at 1e-9 relative; two lazily-added securities of one name may collapse into one (names stay unique).",
             "5/C19",
@@ -177,7 +177,7 @@ CHECKS.update(
         "C06": (
             "Hypothesis-generated prior portfolios, targets, cash fractions and cost models; Rebalance / RebalanceOverTime outcome vs target-weight oracle",
             "Generated prior portfolios (long/short, multipliers, optional funded sub-strategy with holdings), price moves, target vectors, cash fractions, integer or fractional positions and "
-            "cost models; after Rebalance the weights/values/cash fraction are compared with the stated targets; RebalanceOverTime is driven step by step against the expected gap schedule.",
+            "cost models, optionally a CapitalFlow booked right before; after Rebalance the weights/values/cash fraction are compared with the stated targets; RebalanceOverTime is driven step by step against the expected gap schedule.",
             "Costs entering the slack are all costs of the rebalance (fees + spread); exact relations only for fractional cost-free runs.",
             "5/C06",
         ),
@@ -203,7 +203,7 @@ CHECKS.update(
             "Hypothesis-generated trees / unit-risk tables / hedge sets / close and roll tables with probe algos; independent recomputation of risks, hedge residuals and positions",
             "Generated trees with multipliers and unit-risk tables (missing tickers, 1-3 measures, history depth 0-2): a probe recomputes every node's risk and history row on every date; generated "
             "hedge instrument sets (square / over / under-determined) must zero the hedged measures or satisfy the normal equations; generated close and roll tables are checked against the positions "
-            "recorded after the algos ran.",
+            "recorded after the algos ran; close, roll and SelectActive cooperating on one strategy are probed after each algo (positions, selection, perm['closed'] / perm['rolled']).",
             "Close/roll algos run on every date; a security opened for the first time on or after its close date by a later algo of the same stack is exempt on that one date (the algo cannot see it).",
             "5/C20",
         ),
